@@ -619,7 +619,9 @@ fn body_env<S: Spec>(s: u8, dom: u8) {
             Err(InvalidTransaction::TooManyBlobs { have }) => assert!(r.blob_count && have == i.n_blobs, "TooManyBlobs but count within the schedule (or wrong count reported)"),
             Err(InvalidTransaction::AuthorizationListNotSupported) => assert!(r.auth_fields, "AuthorizationListNotSupported but Prague is active or no list"),
             Err(InvalidTransaction::EmptyAuthorizationList) => assert!(r.auth_empty, "EmptyAuthorizationList but list absent or non-empty"),
-            Err(InvalidTransaction::AuthorizationListInvalidFields) => assert!(r.auth_with_blob, "AuthorizationListInvalidFields but no blob fields"),
+            // the crate has no dedicated variant for the nil-destination rule of EIP-7702: AuthorizationListInvalidFields covers both
+            // "blob fields on a set-code transaction" and "set-code transaction without a destination"
+            Err(InvalidTransaction::AuthorizationListInvalidFields) => assert!(r.auth_with_blob || r.auth_create, "AuthorizationListInvalidFields but neither blob fields nor a nil destination"),
             Err(_) => assert!(false, "validate_tx returned an error class that is not a stateless rule"),
         }
         let m = dom == MAIN;
